@@ -205,6 +205,9 @@ class EmbeddingsCache:
         self._key_generator = key_generator
         self._cache_store = cache_store
         self._store_config = store_config or {}
+        # Mixed into every key, so that the vectors computed by different embedding
+        # models never share a cache entry.
+        self._namespace = ""
 
     @classmethod
     def from_dict(cls, d: Dict[str, str]):
@@ -232,7 +235,7 @@ class EmbeddingsCache:
 
     @get.register
     def _(self, text: str):
-        key = self._key_generator.generate_key(text)
+        key = self._key_generator.generate_key(self._namespace + text)
         log.info(f"Fetching key {key} for text '{text[:20]}...' from cache")
 
         result = self._cache_store.get(key)
@@ -259,7 +262,7 @@ class EmbeddingsCache:
 
     @set.register
     def _(self, text: str, value: List[float]):
-        key = self._key_generator.generate_key(text)
+        key = self._key_generator.generate_key(self._namespace + text)
         log.info(f"Cache miss for text '{text}'. Storing key {key} in cache.")
         self._cache_store.set(key, value)
 
@@ -307,6 +310,10 @@ def cache_embeddings(func):
             return await func(self, texts)
 
         embeddings_cache = EmbeddingsCache.from_config(self.cache_config)
+        embedding_model = getattr(self, "embedding_model", None)
+        if embedding_model:
+            embedding_engine = getattr(self, "embedding_engine", None)
+            embeddings_cache._namespace = f"{embedding_engine}/{embedding_model}\n"
 
         cached_texts = {}
         uncached_texts = []
